@@ -49,9 +49,7 @@ func init() { commands["C14"] = c14_runC14 }
 
 const (
 	c14FindFail  = "C14-failed-import-reruns"
-	c14FindCycle = "C14-cyclic-import-reruns"
 	c14FindClone = "C14-spawn-reimport"
-	c14FindStack = "C14-from-import-stack-residue"
 )
 
 var c14Exts = []string{".risor", ".rsr"}
@@ -1192,8 +1190,10 @@ func c14Reach(p *c14Prog) map[string]map[string]bool {
 	return edges
 }
 
-// a spawned clone must not reach a cyclic import (the Go panic would happen in another
-// goroutine): replace such spawns by plain try-imports.
+// a spawned clone must not reach a cyclic import: replace such spawns by plain try-imports.
+// (With the cyclic-import repair of vm.importModule the clone would get an import error; the
+// rule is kept because this check must also survive a tree in which the repair is lost, where
+// the frame overflow would be a Go panic in another goroutine and kill the harness.)
 func c14Sanitize(p *c14Prog) {
 	edges := c14Reach(p)
 	var cyclic func(n string, path map[string]bool, depth int) bool
@@ -1639,7 +1639,7 @@ func (p *c14Prog) allowed(mod, v string, depth int) (vals map[int]bool, open boo
 					if o || p.fileOf(s.Name) == nil {
 						open = true
 					}
-					open = true // stack residue may also bind other values; judged by the binding check instead
+					open = true // what a from-import binds is judged by the binding check (S3b) instead
 				}
 			}
 		}
@@ -1987,13 +1987,18 @@ func c14GraphCase(e *Env, p *c14Prog, keys []string, rep string, dir string, als
 	}
 
 	f := strings.Split(rep, "\t")
-	if len(f) != 15 {
+	if len(f) != 14 {
 		e.R.Mismatch(text, "-", rep, "oracle reply malformed")
 		return
 	}
-	mOut, mTicksRaw, mOpens, mFailed, mReent := f[0], c14Csv(f[1]), c14Csv(f[2]), c14Csv(f[3]), c14Csv(f[4])
-	mSpawns, mMisbinds, mNofuel := f[5], f[6], f[7]
-	mDump := c14ModelDump(f[8])
+	// (the replies of the machine before the repairs of vm.importModule also carried `reent` and
+	// `misbinds`, the guards of C14-cyclic-import-reruns and C14-from-import-stack-residue: both
+	// are repaired, the model refuses cyclic imports and has no stack residue — a body that runs
+	// twice for a cyclic import, or a from-import that binds anything but what it names, is a
+	// mismatch AND an unlisted Spec violation now)
+	mOut, mTicksRaw, mOpens, mFailed, mCycles := f[0], c14Csv(f[1]), c14Csv(f[2]), c14Csv(f[3]), c14Csv(f[4])
+	mSpawns, mNofuel := f[5], f[6]
+	mDump := c14ModelDump(f[7])
 	mTicks := make([]string, len(mTicksRaw))
 	for i, t := range mTicksRaw {
 		mTicks[i] = p.tickName(t)
@@ -2003,8 +2008,8 @@ func c14GraphCase(e *Env, p *c14Prog, keys []string, rep string, dir string, als
 		p.Failed[n] = true
 	}
 	causes := map[string]string{}
-	if f[12] != "-" {
-		for _, rc := range strings.Split(f[12], ",") {
+	if f[11] != "-" {
+		for _, rc := range strings.Split(f[11], ",") {
 			i := strings.LastIndexByte(rc, ':')
 			nm := UnHex(rc[:i])
 			causes[nm] = rc[i+1:]
@@ -2016,8 +2021,8 @@ func c14GraphCase(e *Env, p *c14Prog, keys []string, rep string, dir string, als
 		e.R.Note("model ran out of fuel on a generated program (skipped)")
 		return
 	}
-	if f[13] != "true" {
-		e.R.Mismatch(text, "-", f[14], "the model's importer gave one code object to two module paths (contradicts importer_distinct_paths_distinct_code_run)")
+	if f[12] != "true" {
+		e.R.Mismatch(text, "-", f[13], "the model's importer gave one code object to two module paths (contradicts importer_distinct_paths_distinct_code_run)")
 	}
 
 	goFS := c14RunGo(p, keys, false, "")
@@ -2073,7 +2078,7 @@ func c14GraphCase(e *Env, p *c14Prog, keys []string, rep string, dir string, als
 			if len(twinPaths) > 0 {
 				// diagnosis only: does the real run look like an importer sharing code between equal texts?
 				sh := strings.Split(e.O.Ask(strings.Split(strings.Replace(c14Request(p, keys), "\trun\t", "\trunshared\t", 1), "\t")...), "\t")
-				if len(sh) == 15 && strings.Join(c14ModelDump(sh[8]), ",") == strings.Join(out.dump, ",") {
+				if len(sh) == 14 && strings.Join(c14ModelDump(sh[7]), ",") == strings.Join(out.dump, ",") {
 					what += " — the real run equals the model of an importer that hands ONE code object to modules with equal source text (Env.reuse = shareByText; distinct_code_needed)"
 				}
 			}
@@ -2103,16 +2108,13 @@ func c14GraphCase(e *Env, p *c14Prog, keys []string, rep string, dir string, als
 	if len(mFailed) > 0 {
 		e.R.H("graph_feature", "failed-import")
 	}
-	if len(mReent) > 0 {
-		e.R.H("graph_feature", "cyclic-import")
+	if len(mCycles) > 0 {
+		e.R.H("graph_feature", "cyclic-import-refused")
 	}
 	if mSpawns != "0" {
 		e.R.H("graph_feature", "spawned-import")
 	}
-	if mMisbinds != "0" {
-		e.R.H("graph_feature", "from-import-bound-residue")
-	}
-	if len(mFailed) == 0 && len(mReent) == 0 && mSpawns == "0" && mMisbinds == "0" {
+	if len(mFailed) == 0 && mSpawns == "0" {
 		e.R.H("graph_feature", "inside-all-guards")
 		if len(twinPaths) > 0 {
 			e.R.H("graph_feature", "identical-source-modules-inside-all-guards")
@@ -2181,8 +2183,6 @@ func c14GraphCase(e *Env, p *c14Prog, keys []string, rep string, dir string, als
 			finding := ""
 			if agree {
 				switch causes[name] {
-				case "1":
-					finding = c14FindCycle
 				case "2":
 					finding = c14FindFail
 				case "3":
@@ -2196,7 +2196,7 @@ func c14GraphCase(e *Env, p *c14Prog, keys []string, rep string, dir string, als
 			if len(out.mods[name]) > 1 {
 				finding := ""
 				if agree && causes[name] != "" {
-					finding = map[string]string{"1": c14FindCycle, "2": c14FindFail, "3": c14FindClone}[causes[name]]
+					finding = map[string]string{"2": c14FindFail, "3": c14FindClone}[causes[name]]
 				}
 				bad(fmt.Sprintf("importers hold %d different module objects for %q", len(out.mods[name]), name), finding)
 			}
@@ -2233,8 +2233,13 @@ func c14GraphCase(e *Env, p *c14Prog, keys []string, rep string, dir string, als
 						last[it[1]] = ""
 						full := s.Name + "/" + it[0]
 						if p.fileOf(full) != nil {
-							failing := false // its body did not complete: from-import falls back to the parent's attribute
+							failing := false // its body did not complete, or the import was refused as cyclic: from-import falls back to the parent's attribute
 							for _, fn := range mFailed {
+								if fn == full {
+									failing = true
+								}
+							}
+							for _, fn := range mCycles {
 								if fn == full {
 									failing = true
 								}
@@ -2259,11 +2264,7 @@ func c14GraphCase(e *Env, p *c14Prog, keys []string, rep string, dir string, als
 				}
 				vf := strings.Split(v, ":") // m<id>:<name>:c<code>
 				if !strings.HasPrefix(v, "m") || len(vf) != 3 || vf[1] != want {
-					finding := ""
-					if agree && mMisbinds != "0" {
-						finding = c14FindStack
-					}
-					bad(fmt.Sprintf("%s.%s was imported as module %q but holds %s", path, al, want, v), finding)
+					bad(fmt.Sprintf("%s.%s was imported as module %q but holds %s", path, al, want, v), "")
 				} else if f := p.fileOf(want); f != nil {
 					check(path+"."+al, want, f.Body, depth-1)
 				}
@@ -2274,12 +2275,7 @@ func c14GraphCase(e *Env, p *c14Prog, keys []string, rep string, dir string, als
 					continue
 				}
 				vals, open := p.allowed(mod, vname, 3)
-				// when a from-import bound a stack residue (known finding) an alias may denote another
-				// module than the one it names, and stores through it land there
 				finding := ""
-				if agree && mMisbinds != "0" {
-					finding = c14FindStack
-				}
 				if !strings.HasPrefix(v, "i") {
 					if !open && len(vals) > 0 {
 						bad(fmt.Sprintf("%s.%s holds %s although only integers were stored into that variable", path, vname, v), finding)
@@ -2351,14 +2347,27 @@ func c14DirectedProgs() []c14Prog {
 		mk([]c14File{bad("d/e", 400), {Name: "d", Ext: ".risor", Body: []c14Stmt{set("x", 500), set("y", 501), set("e", 502)}}},
 			from("d", [2]string{"e", "e"}), from("d", [2]string{"e", "p"})),
 		mk([]c14File{bad("e", 400)}, c14Stmt{Kind: "try", Name: "e"}, c14Stmt{Kind: "try", Name: "e"}),
-		// FINDING cyclic import
+		// FIXED (was C14-cyclic-import-reruns): cyclic imports are refused — two modules, a self-import,
+		// a cycle closed by a from-import (falls back to the parent's attribute), a cycle under try
 		mk([]c14File{{Name: "a", Ext: ".risor", Body: []c14Stmt{set("x", 1), set("y", 2), imp("b", "b")}},
 			{Name: "b", Ext: ".risor", Body: []c14Stmt{set("x", 3), set("y", 4), imp("a", "a")}}}, imp("a", "a")),
+		mk([]c14File{{Name: "a", Ext: ".risor", Body: []c14Stmt{set("x", 1), set("y", 2), imp("a", "a")}}}, imp("a", "a")),
+		mk([]c14File{{Name: "d", Ext: ".risor", Body: []c14Stmt{set("x", 5), set("y", 6), set("a", 7)}},
+			{Name: "d/a", Ext: ".risor", Body: []c14Stmt{set("x", 1), set("y", 2), from("d", [2]string{"a", "p"})}}}, imp("d/a", "q"), from("d", [2]string{"a", "a"})),
+		mk([]c14File{{Name: "a", Ext: ".risor", Body: []c14Stmt{set("x", 1), set("y", 2), {Kind: "try", Name: "b"}, set("x", 8)}},
+			{Name: "b", Ext: ".risor", Body: []c14Stmt{set("x", 3), set("y", 4), imp("a", "a")}}}, imp("a", "a"), c14Stmt{Kind: "try", Name: "b"}, imp("a", "p")),
 		// FINDING import inside a spawned clone, then in the script
 		mk([]c14File{leaf("a", 100)}, c14Stmt{Kind: "spawn", Name: "a"}, imp("a", "a")),
 		mk([]c14File{leaf("a", 100)}, c14Stmt{Kind: "spawn", Name: "a"}, c14Stmt{Kind: "spawn", Name: "a"}),
-		// FINDING from-import of two modules that are loaded by that statement
+		// FIXED (was C14-from-import-stack-residue): from-import of two / three modules that are loaded by
+		// that statement, of a module and an attribute, and of a module whose body fails (fallback)
 		mk([]c14File{leaf("d/a", 100), leaf("d/b", 200)}, from("d", [2]string{"a", "a"}, [2]string{"b", "b"})),
+		mk([]c14File{leaf("d/a", 100), leaf("d/b", 200), leaf("d/e", 300)}, from("d", [2]string{"a", "p"}, [2]string{"b", "q"}, [2]string{"e", "r"}),
+			via("q", "x", 5), via("r", "y", 6)),
+		mk([]c14File{leaf("d/a", 100), {Name: "d", Ext: ".risor", Body: []c14Stmt{set("x", 500), set("y", 501), set("e", 502)}}},
+			from("d", [2]string{"e", "e"}, [2]string{"a", "a"}, [2]string{"y", "q"})),
+		mk([]c14File{bad("d/e", 400), leaf("d/a", 100), {Name: "d", Ext: ".risor", Body: []c14Stmt{set("x", 500), set("y", 501), set("e", 502)}}},
+			from("d", [2]string{"e", "e"}, [2]string{"a", "a"})),
 		// observation: duplicate name in one from-import (only the last alias is bound)
 		mk([]c14File{leaf("a", 100)}, from("a", [2]string{"x", "p"}, [2]string{"x", "q"})),
 		// missing module, missing attribute
